@@ -38,10 +38,26 @@ where
     self.fn_next.call_if_available(x);
   }
   pub fn error(&self, x: RxError) {
-    self.fn_error.call_and_clear_if_available(x);
+    // a terminal closes the whole observer; whoever takes `fn_next` out
+    // (error, complete or unsubscribe) is the only one to act. The terminal
+    // callback is taken while `fn_next` is still locked, so a concurrent
+    // unsubscribe/finalize that sees the observer closed cannot wipe it first.
+    let f = self.fn_next.clear_if_available_and(|| {
+      self.fn_complete.clear();
+      self.fn_error.take()
+    });
+    if let Some(f) = f {
+      f.call_if_available(x);
+    }
   }
   pub fn complete(&self) {
-    self.fn_complete.call_and_clear_if_available(());
+    let f = self.fn_next.clear_if_available_and(|| {
+      self.fn_error.clear();
+      self.fn_complete.take()
+    });
+    if let Some(f) = f {
+      f.call_if_available(());
+    }
   }
   pub fn unsubscribe(&self) {
     self.fn_next.clear();
